@@ -34,6 +34,8 @@ def javac():
     cds = ["-J-XX:SharedArchiveFile=" + RT_CDS] if os.path.exists(RT_CDS) else []
     return ["javac"] + JAVAC_JVM + cds + JAVAC_OPTS
 MAX_RESTARTS = 25
+MAX_TIMEOUTS = 2
+RUN_TIMEOUT = 90          # seconds per driver process; an op normally takes milliseconds
 STRINGY = ("fix", "dyn")
 
 
@@ -181,13 +183,14 @@ class Java(Lang):
         write(casefile, json.dumps(case))
         ops = case["ops"]
         cmd = ["java"] + JVM + ["-cp", os.pathsep.join([RT_DRV, RT_CLASSES, classes]), "verif.Driver", classes, casefile]
-        events, crash, skip, restarts = [], None, 0, 0
+        events, crash, skip, restarts, timeouts = [], None, 0, 0, 0
         while skip < len(ops):
-            if restarts > MAX_RESTARTS:
+            if restarts > MAX_RESTARTS or timeouts > MAX_TIMEOUTS:
                 for op in ops[skip:]:
-                    events.append(self._crash_event(op, "driver restarted %d times; not run" % restarts))
+                    events.append(self._crash_event(op, "driver restarted %d times (%d timeouts); not run" % (restarts, timeouts)))
                 break
-            r = run(cmd + ["--skip", str(skip)], timeout=300)
+            r = run(cmd + ["--skip", str(skip)], timeout=RUN_TIMEOUT)
+            timeouts += 1 if r.timed_out else 0
             evs = [e for e in parse_events(r.stdout) if e.get("ev") in ("enc", "dec", "deckey")][:len(ops) - skip]
             events += evs
             skip += len(evs)
